@@ -99,7 +99,7 @@ PLANS = {
                [D("mix", n=60, steps=100, procs=8, lag=True, faults=10), D("down", n=60, steps=100, procs=8, lag=True, faults=10)],
                "non-trivial: a scan that wrote or removed the escalator taint (object diff of every PUT against the API copy), or met an already tainted node behind a lagging lister view",
                ["C15:taint-write", "C15:untaint-write", "C15:lagging-view-already-tainted", "C15:write-lost-a-race"]),
-    "C20": ctl(["reap", "linger", "drybad"], ["reap", "updown", "linger", "lag", "drybad", "swap"],
+    "C20": ctl(["reap", "linger", "drybad", "zerocap"], ["reap", "updown", "linger", "lag", "drybad", "swap", "zerocap"],
                [D("mix", odd=True, lag=True, faults=45, enum=15), D("reap", odd=True, faults=45, enum=15), D("lock", odd=True, faults=30, enum=20)],
                [D("mix", n=60, steps=100, procs=8, odd=True, lag=True, faults=45, enum=15, enum2=True), D("reap", n=60, steps=100, procs=8, odd=True, faults=45, enum=15, enum2=True),
                 D("lock", n=40, steps=100, procs=8, odd=True, faults=30, enum=20, enum2=True)],
